@@ -260,6 +260,25 @@ pub fn judge(case: &Case) -> Outcome {
                 }
             }
         }
+        "c04.fuzz_artifact" => {
+            // the saved libFuzzer input is the reproducible unit: run the target binary on it
+            let target = case.extra.get("target").and_then(|t| t.as_str()).unwrap_or("load_text");
+            let artifact = case.extra.get("artifact").and_then(|t| t.as_str()).unwrap_or("");
+            let bin = verif_root()
+                .join("harness/fuzz/target/x86_64-unknown-linux-gnu/release")
+                .join(target);
+            if !bin.exists() || !std::path::Path::new(artifact).exists() {
+                return Outcome::Skip("fuzz binary or artifact not present".into());
+            }
+            return match std::process::Command::new(&bin).arg(artifact).output() {
+                Ok(o) if !o.status.success() => Outcome::Violation(format!(
+                    "libFuzzer target {target} fails on {artifact}: {}",
+                    String::from_utf8_lossy(&o.stderr).lines().filter(|l| l.contains("panicked") || l.contains("ERROR")).take(3).collect::<Vec<_>>().join(" | ")
+                )),
+                Ok(_) => Outcome::Pass { nontrivial: None, evaluations: 1, labels: vec!["fuzz_artifact_passes"] },
+                Err(e) => Outcome::Skip(format!("cannot run fuzz binary: {e}")),
+            };
+        }
         _ => return Outcome::Skip("unknown kind".into()),
     }
     labels.push(if accepted { "some_variant_accepted" } else { "all_variants_rejected" });
@@ -583,14 +602,24 @@ fn fuzz_campaign(report: &mut Report, seed: u64) {
             let text = String::from_utf8_lossy(&o.stdout).to_string();
             for line in text.lines() {
                 if let Some(path) = line.strip_prefix("CRASH ") {
-                    if let Ok(bytes) = std::fs::read(path.trim()) {
-                        let t = String::from_utf8_lossy(&bytes).to_string();
-                        let c = text_case("c04.text", t);
-                        match judge(&c) {
-                            Outcome::Violation(m) => report.record(&c, Outcome::Violation(m)),
-                            _ => report.notes.push(format!("fuzz crash {path} does not reproduce in the harness oracle")),
-                        }
-                    }
+                    let path = path.trim();
+                    let target = std::path::Path::new(path)
+                        .parent()
+                        .and_then(|p| p.file_name())
+                        .and_then(|n| n.to_str())
+                        .unwrap_or("load_text")
+                        .to_string();
+                    let bytes = std::fs::read(path).unwrap_or_default();
+                    // keep the artifact next to the replay files
+                    let keep = verif_root().join("replays").join(ID);
+                    let _ = std::fs::create_dir_all(&keep);
+                    let kept = keep.join(format!("{target}-{}", std::path::Path::new(path).file_name().and_then(|n| n.to_str()).unwrap_or("artifact")));
+                    let _ = std::fs::write(&kept, &bytes);
+                    let mut c = Case::new("c04.fuzz_artifact");
+                    c.texts = vec![String::from_utf8_lossy(&bytes).to_string()];
+                    c.extra = serde_json::json!({"target": target, "artifact": kept.display().to_string()});
+                    let out = judge(&c);
+                    report.record(&c, out);
                 } else if line.starts_with("FUZZ ") {
                     report.notes.push(line.to_string());
                     if let Some(n) = line.split("execs=").nth(1).and_then(|x| x.split_whitespace().next()).and_then(|x| x.parse::<u64>().ok()) {
